@@ -1,8 +1,16 @@
 package main
 
+import (
+	"fmt"
+	"go/token"
+	"go/types"
+
+	"golang.org/x/tools/go/ssa"
+)
+
 func init() {
 	register("C07", runC07, propMeta{
-		Explanation: "Decides the three structural conditions that make a hot update atomic per execution and visible to every later execution, for all interleavings: (U1) each of the 21 Gengine.Execute* methods reads the published container rb.Kc exactly once, in its own body, before any rule runs or goroutine starts, and uses that snapshot throughout; (U2) nothing writes into a container that may already be published: every field store, map update, element store or in-place append that reaches KnowledgeContext memory acts on a container the same function just created with NewKnowledgeContext (the listener fills the one it was constructed with, and every construction site passes a fresh one), and compiled RuleEntity / AST node fields are written only by the listener and the Accept*/New* functions; (U3) UpdatePooledRules, UpdatePooledRulesIncremental and ClearPoolRules store the master's new container (or a fresh empty one) into gp.rbSlice[i].Kc for i counted from 0 by 1 up to gp.max before any successful return, RemoveRules applies the removal to every element of gp.rbSlice, and len(rbSlice) == max by construction; (U4) every store to RuleBuilder.Kc, gp.ruleBuilder, gp.clear and gp.execModel in the pool holds updateLock (directly, or in a helper all of whose callers hold it), builder-side stores hold buildLock; (U5) no store to installed state can be followed by an error return (compile before publish); (U6) no pool lock is held while rules run, so an update called from inside a rule cannot deadlock on its own request. Together: an execution uses one container that nobody mutates, and an update returns only after every instance points at the new one. Not decided: memory-model visibility of the plain pointer store without synchronisation — reported as known finding D12(c) under C19.",
+		Explanation: "Decides the three structural conditions that make a hot update atomic per execution and visible to every later execution, for all interleavings: (U1) each of the 21 Gengine.Execute* methods reads the published container rb.Kc exactly once, in its own body, before any rule runs or goroutine starts, and uses that snapshot throughout; (U2) nothing writes into a container that may already be published: every field store, map update, element store or in-place append that reaches KnowledgeContext memory acts on a container the same function just created with NewKnowledgeContext (the listener fills the one it was constructed with, and every construction site passes a fresh one), and compiled RuleEntity / AST node fields are written only by the listener and the Accept*/New* functions; (U3) UpdatePooledRules, UpdatePooledRulesIncremental and ClearPoolRules store the master's new container (or a fresh empty one) into gp.rbSlice[i].Kc for i counted from 0 by 1 up to gp.max before any successful return, RemoveRules applies the removal to every element of gp.rbSlice, and len(rbSlice) == max by construction; (U4) every store to RuleBuilder.Kc, gp.ruleBuilder, gp.clear and gp.execModel in the pool holds updateLock (directly, or in a helper all of whose callers hold it), builder-side stores hold buildLock; (U5) no store to installed state can be followed by an error return (compile before publish); (U6) no pool lock is held while rules run, so an update called from inside a rule cannot deadlock on its own request. (U7) the engine object hands no compiled rules from one call to the next: a field of Gengine that holds rules may be read only under a comparison of a kept KnowledgeContext pointer with this call's container. Together: an execution uses one container that nobody mutates, and an update returns only after every instance points at the new one. Not decided: memory-model visibility of the plain pointer store without synchronisation — reported as known finding D12(c) under C19.",
 		Assumptions: []string{"an execution only reaches rule data through the container it loaded (no other path to rules exists: checked by U1's single read)"},
 		Trusted:     commonTrusted,
 	})
@@ -22,4 +30,83 @@ func runC07(c *Ctx) {
 	c.Min("U5-compile-before-publish", 9)
 	c.ruleLifecycle("U6-no-lock-while-rules-run", map[string]bool{"engine-call1-no-lock": true, "engine-call2-no-lock": true, "engine-call3-no-lock": true, "engine-call4-no-lock": true})
 	c.Min("U6-no-lock-while-rules-run", 24)
+	c.ruleEngineKeepsNoRules("U7-engine-keeps-no-rules-between-calls")
+	c.Min("U7-engine-keeps-no-rules-between-calls", 1)
+}
+
+// ruleEngineKeepsNoRules (U7): what an execution runs comes from the container it read in this call. An
+// engine object may not hand rules from one call to the next: a read of a Gengine field whose type
+// mentions compiled rules (RuleEntity, KnowledgeContext) is accepted only under a test that compares a
+// KnowledgeContext pointer kept in the engine with the container of this call; kept under anything else
+// (the rule builder's address, the names asked for) it survives an update that swaps the container.
+func (c *Ctx) ruleEngineKeepsNoRules(rule string) {
+	mentionsRules := func(t types.Type) bool {
+		found := false
+		var walk func(t types.Type, d int)
+		walk = func(t types.Type, d int) {
+			if found || d > 6 {
+				return
+			}
+			switch u := t.(type) {
+			case *types.Named:
+				if u.Obj().Pkg() != nil && u.Obj().Pkg().Path() == pBase && (u.Obj().Name() == "RuleEntity" || u.Obj().Name() == "KnowledgeContext") {
+					found = true
+				}
+			case *types.Pointer:
+				walk(u.Elem(), d+1)
+			case *types.Slice:
+				walk(u.Elem(), d+1)
+			case *types.Array:
+				walk(u.Elem(), d+1)
+			case *types.Map:
+				walk(u.Key(), d+1)
+				walk(u.Elem(), d+1)
+			case *types.Struct:
+				for i := 0; i < u.NumFields(); i++ {
+					walk(u.Field(i).Type(), d+1)
+				}
+			}
+		}
+		walk(t, 0)
+		return found
+	}
+	n := 0
+	for _, f := range c.AllFns {
+		if f.Pkg == nil || f.Pkg.Pkg.Path() != pEngine {
+			continue
+		}
+		x := c.Index(f)
+		eachInstr(f, func(in ssa.Instruction) {
+			ld, ok := in.(*ssa.UnOp)
+			if !ok || ld.Op != token.MUL {
+				return
+			}
+			fa, ok := ld.X.(*ssa.FieldAddr)
+			if !ok || structName(fa.X.Type()) != "Gengine" || !mentionsRules(ld.Type()) {
+				return
+			}
+			n++
+			// compared with this call's container?
+			okGuard := false
+			for _, g := range x.GuardsOf(ld.Block()) {
+				bo, isB := g.Cond.(*ssa.BinOp)
+				if !isB || (bo.Op != token.EQL && bo.Op != token.NEQ) || (bo.Op == token.EQL) != g.Pol {
+					continue
+				}
+				isKept := func(v ssa.Value) bool {
+					b, is := x.isFieldLoadAny(v, "Gengine")
+					return is && b != nil && structName(derefType(v.Type())) == "KnowledgeContext"
+				}
+				isSnap := func(v ssa.Value) bool {
+					_, is := x.isFieldLoad(v, "RuleBuilder", "Kc")
+					return is
+				}
+				if (isKept(bo.X) && isSnap(bo.Y)) || (isKept(bo.Y) && isSnap(bo.X)) {
+					okGuard = true
+				}
+			}
+			c.Check(rule, fmt.Sprintf("%s#reads-%s", fnName(f), fieldOf(fa).Name()), okGuard, in.Pos(), "the engine object hands on compiled rules kept in its field %s from an earlier call without comparing the container they came from with the one of this call: an update that swaps the container is not seen", fieldOf(fa).Name())
+		})
+	}
+	c.Check(rule, "inventory", true, 0, "%d read(s) of rule-holding fields of the engine object", n)
 }
